@@ -25,6 +25,9 @@ EXPLANATION += (
     ' ADDED: For anticorrelated / correlated diagonal ids the bound must be exactly n_il + n_xl - 1, resp. -n_xl < id < n_il (polynomial comparison). C14.2: a public method may pass access_padding=True only around values derived from its own checked parameters; a bare padded extent as an argument is a violation. C14.5: a failed bounds guard of the read API raises IndexError.'
 )
 EXPLANATION += (
+    ' C14.8 - every reader method bound as the values_function of an ordinal accessor establishes 0 <= ordinal before any subscript by it, in 3D and in 2D mode: the accessors add len() once, an ordinal below -len stays negative, and a numpy subscript would wrap a second time.'
+)
+EXPLANATION += (
     ' ADDED (round 4): C14.7 - every look-up self.variant_headers[k][i] in gen_trace_header is preceded on every path by read_variant_headers() of the same call (the call that loads and, for irregular files, asserts the compacted representation): skipping it when the key is cached lets an array cached padded by an earlier call be indexed by a trace ordinal.'
 )
 EXPLANATION += (
